@@ -89,12 +89,20 @@ Definition good_pair (n : Z) (ref_is_error : bool) (v e : Q) (o : output) : Prop
   Qabs (out_value o - v) <= ((1 # 2) + (1 # 20)) * pow10 p /\
   Qabs (out_error o - e) <= ((1 # 2) + (1 # 20)) * pow10 p.
 
+(** nothing is printed below the place of the n-th figure of the reference number as given, and
+    the printed reference number is in the same decade or (carry) the next one *)
+Definition fine_place (n : Z) (ref_in ref_out : Q) (o : output) : Prop :=
+  (ord ref_out = ord ref_in \/ ord ref_out = (ord ref_in + 1)%Z) /\
+  (exists j : Z, out_value o == inject_Z j * pow10 (ord ref_in - n + 1)) /\
+  (exists j : Z, out_error o == inject_Z j * pow10 (ord ref_in - n + 1)).
+
 Lemma core_auto_error latex ex c v e :
   (1 <= c_n c <= 13)%Z -> uses_error (c_mode c) = true -> 0 < e ->
   exists o, core ord rd latex ex c v e = Some o /\
             o_bare o = false /\ o_exp o = expo ex /\ o_latex o = latex /\
             good_pair (c_n c) true v e o /\
-            Qabs (out_error o - e) <= (1 # 2) * pow10 (ord e - c_n c + 1).
+            Qabs (out_error o - e) <= (1 # 2) * pow10 (ord e - c_n c + 1) /\
+            fine_place (c_n c) e (out_error o) o.
 Proof.
   intros [Hn Hn13] Hm He. destruct Hrd as (Hrv & Hre & Hfv & Hfe).
   assert (Hez : ~ e == 0) by (intro E; rewrite E in He; discriminate He).
@@ -125,15 +133,24 @@ Proof.
          {| o_sci := match ex with None => false | Some _ => true end; o_latex := latex;
             o_val := f_val rd (conv ex Rv * pow10 d); o_err := f_err rd (conv ex Re * pow10 d);
             o_bare := false; o_dec := d; o_exp := expo ex |} /\
-       inject_Z (f_err rd (conv ex Re * pow10 d)) / pow10 d * pow10 (expo ex) == Re).
-  { intros [G Ee]. split; [exact G|]. unfold out_error. cbn [o_err o_dec o_exp]. rewrite Ee.
-    pose proof (ref_close (r_err rd) Hre e oe n k) as RC. fold B Re cb p in RC.
-    replace (p - cb)%Z with (oe - n + 1)%Z in RC by (unfold p; lia). exact RC. }
+       inject_Z (f_err rd (conv ex Re * pow10 d)) / pow10 d * pow10 (expo ex) == Re /\
+       ord (inject_Z (f_err rd (conv ex Re * pow10 d)) / pow10 d * pow10 (expo ex)) = (oe + cb)%Z /\
+       (exists j : Z, inject_Z (f_val rd (conv ex Rv * pow10 d)) / pow10 d * pow10 (expo ex) == inject_Z j * B)).
+  { intros (G & Ee & Eo & Em). split; [exact G|]. split.
+    - unfold out_error. cbn [o_err o_dec o_exp]. rewrite Ee.
+      pose proof (ref_close (r_err rd) Hre e oe n k) as RC. fold B Re cb p in RC.
+      replace (p - cb)%Z with (oe - n + 1)%Z in RC by (unfold p; lia). exact RC.
+    - unfold fine_place, out_error, out_value. cbn [o_val o_err o_dec o_exp]. fold oe B. split.
+      + rewrite Eo. destruct (carry_01 (r_err rd) Hre e oe n Hn Lo Hi) as [C|C]; fold cb in C; rewrite C; [left|right]; lia.
+      + split; [exact Em|]. exists (r_err rd (e / B)). rewrite Ee. reflexivity. }
   (* what is printed *)
   assert (Eerr : inject_Z (f_err rd (conv ex Re * pow10 d)) / pow10 d * pow10 k == Re).
   { apply (ref_printed (r_err rd) (f_err rd) Hre Hfe e oe n Hn Lo Hi k). fold B Re cb p d. rewrite Ece. reflexivity. }
   destruct (Rref_bounds (r_err rd) Hre e oe n Hn Lo Hi) as [RL RU]. fold B Re cb in RL, RU.
-  split; [|exact Eerr].
+  split; [|split; [exact Eerr|split]].
+  2:{ apply ord_unique; fold k; rewrite Eerr; assumption. }
+  2:{ apply (other_multiple (r_err rd) (r_val rd) (f_val rd) Hre Hfv e oe n Hn Lo Hi k v).
+      fold B Rv cb p d. rewrite Ecv. reflexivity. }
   unfold good_pair, out_error, out_value. cbn [o_val o_err o_dec o_exp]. fold k.
   set (E := inject_Z (f_err rd (conv ex Re * pow10 d)) / pow10 d * pow10 k) in *.
   assert (Eord : ord E = (oe + cb)%Z) by (apply ord_unique; rewrite Eerr; assumption).
@@ -157,7 +174,8 @@ Lemma core_value latex ex c v e :
             o_bare o = is_zero e /\ (is_zero e = true -> o_err o = 0%Z) /\
             o_exp o = expo ex /\ o_latex o = latex /\
             good_pair (c_n c) false v e o /\
-            Qabs (out_value o - v) <= (1 # 2) * pow10 (ord v - c_n c + 1).
+            Qabs (out_value o - v) <= (1 # 2) * pow10 (ord v - c_n c + 1) /\
+            fine_place (c_n c) v (out_value o) o.
 Proof.
   intros [Hn Hn13] Hm Hvz He. destruct Hrd as (Hrv & Hre & Hfv & Hfe).
   destruct (Hord v Hvz) as [Lo Hi].
@@ -188,14 +206,26 @@ Proof.
             o_val := f_val rd (conv ex Rv * pow10 d);
             o_err := if is_zero e then 0%Z else f_err rd (conv ex Re * pow10 d);
             o_bare := is_zero e; o_dec := d; o_exp := expo ex |} /\
-       inject_Z (f_val rd (conv ex Rv * pow10 d)) / pow10 d * pow10 (expo ex) == Rv).
-  { intros [G Ee]. split; [exact G|]. unfold out_value. cbn [o_val o_dec o_exp]. rewrite Ee.
-    pose proof (ref_close (r_val rd) Hrv v ov n k) as RC. fold B Rv cb p in RC.
-    replace (p - cb)%Z with (ov - n + 1)%Z in RC by (unfold p; lia). exact RC. }
+       inject_Z (f_val rd (conv ex Rv * pow10 d)) / pow10 d * pow10 (expo ex) == Rv /\
+       ord (inject_Z (f_val rd (conv ex Rv * pow10 d)) / pow10 d * pow10 (expo ex)) = (ov + cb)%Z /\
+       (exists j : Z, inject_Z (if is_zero e then 0%Z else f_err rd (conv ex Re * pow10 d)) / pow10 d * pow10 (expo ex)
+                      == inject_Z j * B)).
+  { intros (G & Ee & Eo & Em). split; [exact G|]. split.
+    - unfold out_value. cbn [o_val o_dec o_exp]. rewrite Ee.
+      pose proof (ref_close (r_val rd) Hrv v ov n k) as RC. fold B Rv cb p in RC.
+      replace (p - cb)%Z with (ov - n + 1)%Z in RC by (unfold p; lia). exact RC.
+    - unfold fine_place, out_error, out_value. cbn [o_val o_err o_dec o_exp]. fold ov B. split.
+      + rewrite Eo. destruct (carry_01 (r_val rd) Hrv v ov n Hn Lo Hi) as [C|C]; fold cb in C; rewrite C; [left|right]; lia.
+      + split; [|exact Em]. exists (r_val rd (v / B)). rewrite Ee. reflexivity. }
   assert (Eval : inject_Z (f_val rd (conv ex Rv * pow10 d)) / pow10 d * pow10 k == Rv).
   { apply (ref_printed (r_val rd) (f_val rd) Hrv Hfv v ov n Hn Lo Hi k). fold B Rv cb p d. rewrite Ecv. reflexivity. }
   destruct (Rref_bounds (r_val rd) Hrv v ov n Hn Lo Hi) as [RL RU]. fold B Rv cb in RL, RU.
-  split; [|exact Eval].
+  split; [|split; [exact Eval|split]].
+  2:{ apply ord_unique; fold k; rewrite Eval; assumption. }
+  2:{ destruct (is_zero e).
+      - exists 0%Z. pose proof (pow10_pos d). pose proof (pow10_pos (expo ex)). unfold inject_Z. field. lra.
+      - apply (other_multiple (r_val rd) (r_err rd) (f_err rd) Hrv Hfe v ov n Hn Lo Hi k e).
+        fold B Re cb p d. rewrite Ece. reflexivity. }
   unfold good_pair, out_error, out_value. cbn [o_val o_err o_dec o_exp]. fold k.
   set (V := inject_Z (f_val rd (conv ex Rv * pow10 d)) / pow10 d * pow10 k) in *.
   assert (Eord : ord V = (ov + cb)%Z) by (apply ord_unique; rewrite Eval; assumption).
@@ -358,14 +388,17 @@ Theorem auto_error_lemma s c v e :
     (exists j : Z, E == inject_Z j * pow10 p) /\
     Qabs (out_value o - v) <= ((1 # 2) + (1 # 20)) * pow10 p /\
     Qabs (out_error o - e) <= ((1 # 2) + (1 # 20)) * pow10 p /\
-    Qabs (out_error o - e) <= (1 # 2) * pow10 (ord e - c_n c + 1).
+    Qabs (out_error o - e) <= (1 # 2) * pow10 (ord e - c_n c + 1) /\
+    (ord (out_error o) = ord e \/ ord (out_error o) = (ord e + 1)%Z) /\
+    (exists j : Z, out_value o == inject_Z j * pow10 (ord e - c_n c + 1)) /\
+    (exists j : Z, out_error o == inject_Z j * pow10 (ord e - c_n c + 1)).
 Proof.
   intros Hn Hm He.
   assert (Hez : ~ e == 0) by (intro E; rewrite E in He; discriminate He).
   assert (Hu : uses_error (c_mode c) = true) by (destruct (c_mode c); [reflexivity|contradiction|reflexivity]).
   pose proof (nz_pair_r v e Hez) as Hz.
   destruct (printer_core s c v e Hz) as (ex & Ep & _).
-  destruct (core_auto_error (style_latex s) ex c v e Hn Hu He) as (o & Ho & Hb & _ & _ & G & G1).
+  destruct (core_auto_error (style_latex s) ex c v e Hn Hu He) as (o & Ho & Hb & _ & _ & G & G1 & (F1 & F2 & F3)).
   exists o. rewrite Ep. split; [exact Ho|]. split; [apply (printer_shape s c v e o Hz); rewrite Ep; exact Ho|].
   split; [exact Hb|]. destruct G as (g1 & g2 & g3 & g4 & g5). repeat split; assumption.
 Qed.
@@ -381,13 +414,16 @@ Theorem value_mode_lemma s c v e :
     (exists j : Z, V == inject_Z j * pow10 p) /\
     Qabs (out_value o - v) <= ((1 # 2) + (1 # 20)) * pow10 p /\
     Qabs (out_error o - e) <= ((1 # 2) + (1 # 20)) * pow10 p /\
-    Qabs (out_value o - v) <= (1 # 2) * pow10 (ord v - c_n c + 1).
+    Qabs (out_value o - v) <= (1 # 2) * pow10 (ord v - c_n c + 1) /\
+    (ord (out_value o) = ord v \/ ord (out_value o) = (ord v + 1)%Z) /\
+    (exists j : Z, out_value o == inject_Z j * pow10 (ord v - c_n c + 1)) /\
+    (exists j : Z, out_error o == inject_Z j * pow10 (ord v - c_n c + 1)).
 Proof.
   intros Hn Hm Hv He.
   assert (Hu : uses_error (c_mode c) = false) by (rewrite Hm; reflexivity).
   pose proof (nz_pair_l v e Hv) as Hz.
   destruct (printer_core s c v e Hz) as (ex & Ep & _).
-  destruct (core_value (style_latex s) ex c v e Hn Hu Hv He) as (o & Ho & Hb & Hb0 & _ & _ & G & G1).
+  destruct (core_value (style_latex s) ex c v e Hn Hu Hv He) as (o & Ho & Hb & Hb0 & _ & _ & G & G1 & (F1 & F2 & F3)).
   exists o. rewrite Ep. split; [exact Ho|]. split; [apply (printer_shape s c v e o Hz); rewrite Ep; exact Ho|].
   split.
   { intro E0. apply is_zero_true in E0. rewrite Hb. split; [exact E0|apply Hb0; exact E0]. }
@@ -426,7 +462,7 @@ Proof.
       split; [intros _; split; assumption|].
       intro M. rewrite M in Hu. discriminate Hu.
     + assert (He0 : 0 <= e) by (rewrite He; apply Qle_refl).
-      destruct (core_value (style_latex s) ex c v e Hn Hu Zv He0) as (o & Ho & Hb & Hb0 & _ & _ & G & G1).
+      destruct (core_value (style_latex s) ex c v e Hn Hu Zv He0) as (o & Ho & Hb & Hb0 & _ & _ & G & G1 & _).
       assert (Ze : is_zero e = true) by (apply is_zero_true; exact He).
       exists o. rewrite Ep. split; [exact Ho|]. split; [rewrite Hb; exact Ze|]. split; [apply Hb0; exact Ze|].
       split; [intro; contradiction|]. intros _.
